@@ -59,8 +59,55 @@ def count_modulus(prog):
     return out
 
 
+def numbering_agreement(prog):
+    """One numbering of the named variables.  `variable_mapping()` numbers the names by sorting `unique_variables()`;
+    the counting tool keys weights and the configured order through it while the formula is compiled with the labels
+    `from_sexpr` assigns.  Every function that derives a numbering by sorting the set of variable names must therefore
+    sort it by the *same* ordering (siblings must agree): one by `Ord` of the name and another by a custom key is a
+    stated disagreement, and the weights end up on other variables for the names the two orderings rank differently."""
+    sites = []
+    for f in prog.fns:
+        if "::test" in f.npath or f.name.startswith("test") or not any(b["term"]["k"] == "call" for b in f.blocks):
+            continue
+        te = f.terms
+        for cs in te.calls:
+            if not cs.callee.name.startswith("sort") or not cs.args:
+                continue
+            r = strip(cs.args[0])
+            src = None
+            if r[0] == "mutref":
+                src = te.state_in.get(cs.bb, {}).get(r[1]) or te.state_out.get(cs.bb, {}).get(r[1])
+            src = src if src is not None else r
+            if not any(mir.is_call(x, "unique_variables") for x in [strip(src)] + list(mir.subterms(src))):
+                continue
+            if cs.callee.name in ("sort", "sort_unstable"):
+                sig = "Ord of the name"
+            else:
+                from . import canon
+                g, _ = canon.closure_fn(prog, cs.args[1]) if len(cs.args) > 1 else (None, None)
+                sig = "%s(%s)" % (cs.callee.name.replace("_unstable", "").replace("_cached", ""),
+                                  show(g.terms.ret)[:120] if g is not None and g.terms.ret is not None else "?")
+            sites.append((f, cs, sig))
+    out = []
+    if not sites:
+        return [inst("MP", "variable-numbering:one-ordering", UNDECIDED, None, None,
+                     "? no function sorts unique_variables(): the numbering of named variables was not found")]
+    ref = [s_ for s_ in sites if s_[0].name == "variable_mapping"] or sites[:1]
+    want = ref[0][2]
+    for f, cs, sig in sites:
+        bad = sig != want
+        und = "?" in sig or "?" in want
+        out.append(inst("MP", "%s:variable-numbering:one-ordering" % f.npath,
+                        UNDECIDED if (bad and und) else (VIOLATION if bad else OK), f, cs.line,
+                        "%s numbers the variable names by %s, but %s numbers them by %s: weights and configured orders are "
+                        "attached through one numbering and the formula is compiled with the other"
+                        % (f.name, sig, ref[0][0].name, want) if bad else "variable names are numbered by %s" % sig))
+    return out
+
+
 def run(prog):
     out = count_modulus(prog)
+    out += numbering_agreement(prog)
     # ---- bottomup_cnf_to_bdd
     fn = prog.find1(name="main", unit="bottomup_cnf_to_bdd-bin")
     te = fn.terms
